@@ -112,6 +112,11 @@ def relion_df_from_rin(rin, innames, v, px, rng, with_px_column):
     return pd.DataFrame(data, columns=order)
 
 
+class FixedOrder(dict):
+    """optics groups whose listing order is part of the case (not shuffled by the file writer)"""
+    fixed_order = True
+
+
 def whole_as_int(df, rng, mode):
     """RELION tables whose angle / coordinate / origin columns hold whole numbers are often INTEGER-typed (template-matching
     grids; STAR files printing 30 instead of 30.000000).  mode: 0 as built; 1 all three angle columns; 2 one angle column;
@@ -135,8 +140,8 @@ def independent_relion_file(path, df, v, px, rng, optics, groups=None):
     The order of the blocks is free: optics before or after the particles, unrelated blocks before / between / after."""
     blocks = []
     if groups and v >= 31:
-        ids = list(groups)
-        if rng.random() < 0.5:
+        ids = list(groups)                  # the caller fixes the row order of the optics block by the order of this dict
+        if rng.random() < 0.5 and not getattr(groups, "fixed_order", False):
             ids.reverse()
         blocks.append("data_optics\n\nloop_\n_rlnOpticsGroup #1\n_rlnOpticsGroupName #2\n_rlnImagePixelSize #3\n"
                       + "".join("%d opticsGroup%d %r\n" % (gid, gid, groups[gid]) for gid in ids))
@@ -534,7 +539,7 @@ class Runner:
         ctx = self.ctx
         pxs = [p[0] / p[1] for p in cs["pxs"]]
         rdf = relion_df_from_rin(cs["rin"], case["innames"], v, pxs[0], rng, False)
-        form = ["column", "column_file", "optics2", "optics2_table"][variant % 4]
+        form = cs.get("force_form") or ["column", "column_file", "optics2", "optics2_table"][variant % 4]
         if v < 31 and form.startswith("optics2"):
             form = "column"                          # 3.0 has no optics block (and no division by the pixel size)
         sig = dict(sig, pxform=form)
@@ -542,6 +547,12 @@ class Runner:
         for p in pxs:
             gid.setdefault(p, len(gid) + 1)
         groups = {g: p for p, g in gid.items()}
+        order = cs.get("optics_order")
+        if order:
+            # forced in every run: optics rows NOT in ascending group order (2 before 1; 3 groups as 2, 3, 1)
+            ids = sorted(groups)
+            ids = ids[::-1] if order == "desc" else ids[1:] + ids[:1]
+            groups = FixedOrder((g, groups[g]) for g in ids)
         if form.startswith("column"):
             rdf["rlnPixelSize"] = pxs
         else:
@@ -553,7 +564,7 @@ class Runner:
                 return api_import(table, v, pxs[0], variant // 4, explicit_px=False)
             if form == "optics2_table":
                 optics = pd.DataFrame({"rlnOpticsGroup": list(groups), "rlnOpticsGroupName": ["g%d" % g for g in groups],
-                                       "rlnImagePixelSize": [groups[g] for g in groups]})
+                                       "rlnImagePixelSize": [groups[g] for g in groups]})      # rows in the order of `groups`
                 return cryomotl.RelionMotl(table, version=VERSION[v], optics_data=optics).df
             path = os.path.join(ctx.workdir, "rmix_%d.star" % os.getpid())
             independent_relion_file(path, rdf, v, pxs[0], rng, optics=False, groups=groups if form == "optics2" else None)
@@ -812,11 +823,38 @@ def gen_hist(rng, classes):
     return hist
 
 
+def forced_optics_cases(rng):
+    """In EVERY run, whatever the seed: imports of merged lists whose optics block lists the groups NOT in ascending order
+    (2 before 1; three groups as 2, 3, 1) with different pixel sizes, no rlnPixelSize column, no explicit pixel size and
+    non-zero Angstrom origins - through a file and through optics_data= with a table, versions 3.1 and 4.0."""
+    out = []
+    plain = {"named": False, "tpre": [], "tpad": 0, "tpost": [], "spre": [], "spadx": 0, "smid": [], "spady": 0, "spost": []}
+    for k, (form, order, ng) in enumerate([("optics2", "desc", 2), ("optics2_table", "desc", 2), ("optics2", "rot", 3),
+                                          ("optics2_table", "rot", 3), ("optics2", "desc", 3), ("optics2_table", "desc", 3)]):
+        v = [31, 40][k % 2]
+        pool = [list(q) for q in rng.sample(PX, ng)]
+        n = ng + 2 + k % 2
+        rows, pxs = [], []
+        for i in range(n):
+            pxi = pool[i % ng]
+            ks = [rng.choice([-1, 1]) * rng.randint(3, 48) for _ in range(3)]            # non-zero origins
+            rows.append({"tomo": 3 + i % 2, "sid": 10 + 3 * i, "cls": 1 + i, "e": [rng.randint(0, 3), rng.randint(0, 3), rng.randint(0, 3)],
+                         "coord": [rng.randint(-400, 16000) for _ in range(3)],
+                         "origin": [[kk * pxi[0], U * pxi[1]] for kk in ks], "subset": 1 + i % 2})
+            pxs.append(pxi)
+        out.append({"mode": "import", "v": v, "px": pool[0], "pxs": pxs, "fmt": plain, "rin": rows,
+                    "force_form": form, "optics_order": order})
+    return out
+
+
 def run_seeded(ctx, sizes, nfiles):
     wd = ctx.sub("cases")
     path = os.path.join(wd, "cases.ndjson")
     cases = []
     with open(path, "w") as fh:
+        for c in forced_optics_cases(ctx.rng):
+            cases.append(c)
+            fh.write(json.dumps(c) + "\n")
         for n in sizes:
             c = gen_case(ctx.rng, n)
             cases.append(c)
